@@ -181,7 +181,7 @@ def dispatch(eng, func, args, kwargs):
             if name in ("resize_", "resize_as_"):
                 continue
             eng.write(tgt, r, site=site)
-            check(eng, func, tgt)
+            check(eng, func, tgt, b)
     else:
         if isinstance(res, (tuple, list)):
             if len(res) != len(outs):
@@ -189,10 +189,10 @@ def dispatch(eng, func, args, kwargs):
             for o, r in zip(outs, res):
                 if r is not None:
                     eng.new(o, r)
-                    check(eng, func, o)
+                    check(eng, func, o, b)
         else:
             eng.new(outs[0], res)
-            check(eng, func, outs[0])
+            check(eng, func, outs[0], b)
     return out
 
 
@@ -229,7 +229,11 @@ def count(eng, func):
         raise PathAbort("op budget exceeded")
 
 
-def check(eng, func, t):
+DIVISION_OPS = {"div": "other", "div_": "other", "true_divide": "other", "reciprocal": "self", "reciprocal_": "self", "rsqrt": "self",
+                "rsqrt_": "self", "addcdiv": "tensor2", "addcdiv_": "tensor2"}
+
+
+def check(eng, func, t, b=None):
     """translator validation: symbolic result evaluated at the witness vs the real kernel's output"""
     if not eng.crosscheck or eng.diverged or t.numel() == 0 or t.numel() > 512:
         return
@@ -254,9 +258,18 @@ def check(eng, func, t):
                 except Exception:  # noqa: BLE001
                     hp = g
                 if hp != hp or abs(hp - g) > (2e-3 if tol32 else 1e-6) * scale:
-                    eng.diverged = True
+                    eng.crosscheck = False  # cross-checking is suspended for the rest of this path (recorded in the evidence)
                     eng.illconditioned += 1
                     return
+                # a division by a (rounding-noise) tiny denominator, e.g. 0/0 after a Krylov breakdown: the real quotient is noise
+                dn = DIVISION_OPS.get(opname(func))
+                if dn is not None and b is not None and isinstance(b.get(dn), torch.Tensor) and b[dn] is not t:
+                    with _disable_current_modes():
+                        dmin = float(b[dn].detach().abs().min()) if b[dn].numel() else 1.0
+                    if dmin < 1e-8:
+                        eng.crosscheck = False
+                        eng.illconditioned += 1
+                        return
                 if eng.strict_crosscheck:
                     raise EngineMismatch(f"{func}: cell {i}: symbolic {g} vs real {r} (scale {scale}) at {eng.where()}")
                 eng.diverged = True
@@ -928,7 +941,17 @@ def _masked_scatter(eng, b, func, out):
 
 @op("clamp_min", "clamp_min_")
 def _clamp_min(eng, b, func, out):
-    return u_max(eng.sym(b["self"]), eng.sym(b["min"]))
+    x, mn = eng.sym(b["self"]), eng.sym(b["min"])
+    cut = eng.in_cut_site()
+    if cut is not None and mn.size == 1 and T.is_const(mn.reshape(-1)[0]) and 0 <= mn.reshape(-1)[0] <= Fraction(1, 10 ** 6):
+        # safe-division clamp (x.clamp_min_(eps)) inside a generic-case cut site: assume it is not triggered
+        m0 = mn.reshape(-1)[0]
+        for c in as_obj(x).reshape(-1):
+            if T.is_term(c):
+                eng.assume(T.ge(c, m0), f"generic-case cut: clamp_min not triggered in {cut}")
+                eng.cuts.append((cut, "clamp_min", T.show(c, 60)))
+        return x
+    return u_max(x, mn)
 
 
 @op("clamp_max", "clamp_max_")
